@@ -26,12 +26,13 @@ import (
 func init() { hx.Register("C14", Run) }
 
 type input struct {
-	Mode    string `json:"mode"` // graph | bytes
-	G       *Graph `json:"g,omitempty"`
-	Prefix  string `json:"prefix,omitempty"`  // hex, content of the sink before the call (acyclic graphs)
-	Prefill int    `json:"prefill,omitempty"` // zero bytes in the sink before the call (cyclic graphs)
-	Hex     string `json:"hex,omitempty"`
-	Kind    string `json:"kind,omitempty"`
+	Mode    string   `json:"mode"` // graph | bytes | history
+	G       *Graph   `json:"g,omitempty"`
+	H       *History `json:"h,omitempty"`
+	Prefix  string   `json:"prefix,omitempty"`  // hex, content of the sink before the call (acyclic graphs)
+	Prefill int      `json:"prefill,omitempty"` // zero bytes in the sink before the call (cyclic graphs)
+	Hex     string   `json:"hex,omitempty"`
+	Kind    string   `json:"kind,omitempty"`
 }
 
 type driver struct {
@@ -1026,6 +1027,14 @@ func Run(c *hx.Ctx) {
 	d.boundaryBytes()
 
 	phase("size-boundary")
+	// object histories through the real mutators
+	for _, h := range fixedHistories() {
+		d.doHistory(h, "fixed")
+	}
+	for i := 0; i < c.N(150, 1200); i++ {
+		d.doHistory(d.randHistory([]string{"map", "map", "map", "arr", "struct"}[i%5]), "random")
+	}
+	phase("object histories")
 	// key images
 	for i := 0; i < c.N(60, 400); i++ {
 		d.doKey(d.randPrim(true))
@@ -1161,5 +1170,9 @@ func (d *driver) replay(in input) {
 		d.doGraph(*in.G, "replay", hx.UnHex(in.Prefix))
 	case "bytes":
 		d.doBytes(hx.UnHex(in.Hex), "replay")
+	case "history":
+		if in.H != nil {
+			d.doHistory(*in.H, "replay")
+		}
 	}
 }
